@@ -231,14 +231,18 @@ CHECKS["C09"] = {
               "confirmed options, and both ends report the same options after establishment. (e) a pipelining peer: every authenticating symbol written in cleartext in the same write as the choice of tls, alone "
               "and followed by each authenticating symbol sent under TLS: credentials that never travelled under TLS must not reach Authenticate. "
               "Client side also: a confirmation that names a compression the TCP transport cannot apply (alone, or together with tls which it can): the client stops there - no credentials, no established session. "
-              "Plus the ServerBuilder entry point over the loopback TCP listener with a TLS configuration: what a server built with EncryptionOptions(TLS) (and drawn CompressionOptions, with other builders configured around it) offers is exactly [tls] and [none]."),
-    "note": "Real crypto/tls over the in-memory connection; wire observations come from the raw byte capture of both directions. WebSocket transports are not part of this check.",
+              "Plus the ServerBuilder entry point over the loopback TCP listener with a TLS configuration: what a server built with EncryptionOptions(TLS) (and drawn CompressionOptions, with other builders configured around it) offers is exactly [tls] and [none]. "
+              "Plus the WebSocket transports over loopback sockets (ws, wss), where the connection itself decides what is in force: for every spelling of the URL scheme, with and without a TLS "
+              "configuration handed to the client, through DialWebsocket and through the builders, both ends report what is in force (tls under wss, none under ws) and the client follows a scripted "
+              "server that offers and confirms exactly that."),
+    "note": "Real crypto/tls over the in-memory connection; wire observations come from the raw byte capture of both directions. The WebSocket part runs in real time over loopback sockets (a connection that cannot be set up is skipped, not failed).",
     "technique": "exhaustive enumeration of configurations x client behaviours + rapid scripts, with invariants over captured wire bytes and callback-time transport state, in virtual time",
     "rule": ("scripts: 2 transports x 3 compression lists x 4 encryption lists x 2 entry points x scripts to depth 3/4; pairs: the same 24 configurations x 4 encryption selectors x 2 compression "
              "selectors x client TLS config on/off x 2 schemes, plus 9 in-process pairs. Non-trivial: a negotiation stage occurs. Distinct by SHA-1 of the case."),
     "assumptions": HANDSHAKE_ASSUMPTIONS,
-    "exhaustive_jobs": ["TestC09Script", "TestC09Pair", "TestC09Client", "TestC09Sequence"],
+    "exhaustive_jobs": ["TestC09Script", "TestC09Pair", "TestC09Client", "TestC09Sequence", "TestC09WS"],
     "jobs": [
+        {"test": "TestC09WS", "kind": "plain", "timeout": (300, 1500), "gomaxprocs": [4, 8]},
         {"test": "TestC09Builder", "kind": "rapid", "shards": 2, "checks": (30, 400), "timeout": (300, 3000), "gomaxprocs": [4, 8], "shrink": (10, 40)},
         {"test": "TestC09Replay", "kind": "plain"},
         {"test": "TestC09Pair", "kind": "plain", "timeout": (300, 1500)},
